@@ -39,7 +39,7 @@ TRUSTED = vlib.TRUSTED_COMMON + [
     "SendAsyncResponse), fake getty sessions; Go race detector; this driver's race-log parser",
 ]
 DIAG_HEADER = """From Coq Require Import String List NArith Bool.
-From SeataV Require Import Conc.LockSet Conc.LockSetListing.
+From SeataV Require Import Conc.LockSet Conc.LockSetListing Conc.Reent.
 From SeataV Require Gen.LockSet.
 Import ListNotations. Open Scope string_scope.
 Definition T := SeataV.Gen.LockSet.ls_table.
@@ -81,9 +81,13 @@ def diagnose():
         "missing_registries ls_required T",
         "filter (fun x => negb (violatesb T (fst (fst x)) (snd (fst x)) (snd x))) ls_listed",
         "filter (fun r => negb (snd r || existsb (String.eqb (fst (fst r))) ls_leak_listed)) B",
+        "filter (fun r => negb (existsb (String.eqb (fst (fst r))) ls_leak_listed)) SeataV.Gen.LockSet.ls_open_exits",
+        "map (fun h => (hc_func h, hc_line h, hc_lock h, hc_mode h, hc_callee h)) (reentrant_calls SeataV.Gen.LockSet.ls_funcs SeataV.Gen.LockSet.ls_held_calls)",
+        "closed_table SeataV.Gen.LockSet.ls_funcs",
     ]
     vals = vlib.coq_compute("C20", DIAG_HEADER, exprs)
-    keys = ["failing_pairs", "unknown_rows", "missing_registries", "stale_listed_pairs", "unclosed_unlisted_brackets"]
+    keys = ["failing_pairs", "unknown_rows", "missing_registries", "stale_listed_pairs", "unclosed_unlisted_brackets",
+            "exits_with_connection_still_open", "reentrant_lock_calls", "reent_closure_certificate_closed"]
     return {k: (v or "")[:3000] for k, v in zip(keys, vals)}
 
 
@@ -152,6 +156,12 @@ def obs_term(u, undo_closed):
         kind = "USelect"
     elif k == "meta":
         kind = "(UMeta %s)" % ("true" if u["meta_miss"] else "false")
+    elif k == "meta_fail":
+        kind = "(UMetaFail false)"
+    elif k == "meta_fail_cancelled":
+        kind = "(UMetaFail true)"
+    elif k == "at_fail":
+        kind = "(UAt 1 1 None)"
     else:
         kind = "UTm"   # sql.Open of a proxy handle: no pooled resource is held afterwards
     return "(mkObs %s %s %d %d %d %d)" % (kind, "Commit" if o == "commit" else "Rollback", u["runs"],
@@ -216,8 +226,8 @@ def run(chk, replay_obj=None):
         units = child["units"]
         if child.get("stuck"):
             found_dynamic = True
-            chk.violation("transactions still running %ds after the deadline: %s" % (60, child["stuck"]),
-                          dict(replay_base, stuck=child["stuck"]), True)
+            chk.violation("lock-up: the client did not come back within the watchdog's bound: %s (goroutine dump in the replay)" % child["stuck"][:4],
+                          dict(replay_base, stuck=child["stuck"], goroutine_dump=child.get("stuck_dump", "")), True)
         unfinished = {k: (v, child["finished"].get(k, 0)) for k, v in child["started"].items() if child["finished"].get(k, 0) != v}
         if unfinished and not child.get("stuck"):
             found_dynamic = True
@@ -248,7 +258,9 @@ def run(chk, replay_obj=None):
                           dict(replay_base, goroutines=child.get("gor_left")), True)
         busy = child.get("busy_conns") or []
         undo_leaks = [b for b in busy if "undo_log" in b.lower()]
-        refresh_leaks = [b for b in busy if "information_schema" in b.lower()]
+        # meta-data queries name their table; the refresh only re-reads tables that ARE cached, and a
+        # table whose load fails never is: such a connection was lost by a lookup, not by the refresh
+        refresh_leaks = [b for b in busy if b.startswith("META ") and not re.search(r"/\*table T_(QERR|NOCOL|NOIDX|CANCEL)", b)]
         other = [b for b in busy if b not in undo_leaks and b not in refresh_leaks]
         bad = []
         if other:
@@ -266,8 +278,9 @@ def run(chk, replay_obj=None):
     # ---- static obligations
     if not pr["ok"]:
         chk.violation("a proof obligation of C20 no longer checks on the tables regenerated from the source "
-                      "(lock discipline / well-formedness / listed findings / connection brackets): %s" % json.dumps(diag)[:600],
-                      {"theorem": "Props/P_C20.v (C20_lockset, C20_table_wf, C20_listed_findings_refuted, C20_brackets)",
+                      "(lock discipline / well-formedness / listed findings / connection given back on every path / "
+                      "no re-entrant lock): %s" % json.dumps({k: v for k, v in (diag or {}).items() if v not in ("[]", "true")})[:700],
+                      {"theorem": "Props/P_C20.v (C20_lockset, C20_table_wf, C20_listed_findings_refuted, C20_brackets, C20_no_reentrant_lock)",
                        "diagnosis": diag, "coq_output": pr["out"][-1500:]}, found_dynamic)
 
     # ---- known findings (each reproduces statically on every run; dynamic sightings are counted)
@@ -282,15 +295,17 @@ def run(chk, replay_obj=None):
         if "leak.refresh-conn" in findings and not refresh_closed:
             chk.known("id=leak.refresh-conn BaseTableMetaCache.refresh never closes the connection it takes "
                       "(bracket table: unclosed; C20_refresh_pinned_leaks; connections so held at the end of this run: %d)"
-                      % (len([b for b in (child or {}).get("busy_conns") or [] if "information_schema" in b.lower()])))
+                      % (len([b for b in (child or {}).get("busy_conns") or [] if b.startswith("META ")])))
 
     # ---- evidence
     n_units = sum((child or {}).get("finished", {}).values()) + sum(u["runs"] for u in units)
     kinds = {(u["kind"], u["outcome"]) for u in units if u["ok"]} | {(k, "concurrent") for k, v in (child or {}).get("finished", {}).items() if v}
     stats = {}
     if pr["ok"]:
-        v = vlib.coq_compute("C20", ACC_HEADER, ["conflicting_pairs_count", "length ls_table", "length ls_brackets"])
-        stats = {"conflicting_pairs_checked": v[0], "table_rows": v[1], "bracket_rows": v[2]}
+        v = vlib.coq_compute("C20", ACC_HEADER, ["conflicting_pairs_count", "length ls_table", "length ls_brackets",
+                                                 "length ls_funcs", "length ls_held_calls"])
+        stats = {"conflicting_pairs_checked": v[0], "table_rows": v[1], "bracket_rows": v[2],
+                 "lock_function_rows": v[3], "calls_under_a_held_lock_checked": v[4]}
     chk.coverage.update({
         "evaluations": n_units,
         "distinct_nontrivial": len(kinds),
